@@ -10,10 +10,24 @@ import (
 // voter / learner, optional target leader) over n stores and every builder flag
 // combination, whenever Build returns an operator its steps are executed one by
 // one on the region simulator.
-func VerifC08Build() {
+type vrfScenario struct {
+	n                          int
+	sim                        *simRegion
+	target                     map[uint64]*metapb.Peer
+	wantLeader                 uint64
+	originVoters, targetVoters int
+	op                         *Operator
+}
+
+// vrfBuildScenario enumerates cluster mode, origin placement, target placement,
+// leader choices and builder flags, and runs the real Builder. ok=false when the
+// combination is degenerate (no origin voter) or the builder refuses it.
+func vrfBuildScenario() (sc *vrfScenario, ok bool) {
 	n := v.Param("stores", 3)
-	joint := v.Choice("clusterSupportsJoint", 2) == 1
-	tc := vrfCluster(n, joint)
+	// 0: cluster too old for joint consensus, 1: supported but switched off, 2: supported and used
+	mode := v.Choice("jointMode", 3)
+	joint := mode >= 1
+	tc := vrfCluster(n, joint, mode == 2)
 	sim := &simRegion{id: 1, confVer: v.Uint64("confVer"), version: v.Uint64("version")}
 	v.Assume(sim.confVer < 1<<60)
 	originVoters := 0
@@ -27,7 +41,7 @@ func VerifC08Build() {
 		}
 	}
 	if originVoters == 0 {
-		return
+		return nil, false
 	}
 	// leader: the k-th voter
 	k := v.Choice("leaderIdx", originVoters)
@@ -81,9 +95,19 @@ func VerifC08Build() {
 	op, err := b.Build(0)
 	if err != nil {
 		v.Reach("rejected")
-		return
+		return nil, false
 	}
 	v.Reach("built")
+	return &vrfScenario{n: n, sim: sim, target: target, wantLeader: wantLeader, originVoters: originVoters, targetVoters: targetVoters, op: op}, true
+}
+
+func VerifC08Build() {
+	sc, ok := vrfBuildScenario()
+	if !ok {
+		return
+	}
+	sim, target, wantLeader, op := sc.sim, sc.target, sc.wantLeader, sc.op
+	originVoters, targetVoters := sc.originVoters, sc.targetVoters
 	for i := 0; i < op.Len(); i++ {
 		v.Observe("step", op.Step(i).String())
 	}
@@ -91,22 +115,16 @@ func VerifC08Build() {
 	if targetVoters < minVoters {
 		minVoters = targetVoters
 	}
-	startConfVer := sim.confVer
-	accounted := uint64(0)
 	for i := 0; i < op.Len(); i++ {
 		step := op.Step(i)
 		before := sim.info()
 		v.Assert("step-precondition-holds", step.CheckSafety(before) == nil)
-		v.Assert("step-not-finished-before", !step.IsFinish(before))
-		v.Assert("step-accounts-nothing-before", step.ConfVerChanged(before) == 0)
 		if bad := sim.apply(step); bad != "" {
 			v.Assert(bad, false)
 			return
 		}
 		after := sim.info()
 		v.Assert("step-finished-after", step.IsFinish(after))
-		accounted += step.ConfVerChanged(after)
-		v.Assert("conf-ver-accounting-exact", sim.confVer-startConfVer == accounted)
 		if _, isDemote := step.(DemoteFollower); isDemote && vrfPendingVoterAdd(sim, target) {
 			// known finding: without joint consensus a demotion is planned before a pending voter addition
 			v.Assert("voter-count-dips-when-demote-precedes-add", sim.voters() >= minVoters)
